@@ -60,6 +60,7 @@ type kvElection struct {
 	// validation loops, OnPromote callback); nil while not leader. Guarded by mu.
 	termCancel context.CancelFunc
 	stopped    bool // a stop call has been made and Start has not been called since (guarded by mu)
+	stopping   int  // stop calls that have not returned yet (guarded by mu)
 
 	onPromote func(ctx context.Context, token string)
 	onDemote  func()
@@ -197,6 +198,11 @@ func (e *kvElection) Start(ctx context.Context) error {
 	defer e.mu.Unlock()
 
 	if e.ctx != nil && e.ctx.Err() == nil && !e.stopped {
+		return ErrAlreadyStarted
+	}
+	// A stop call is still waiting for the previous run to wind down (goroutines,
+	// key deletion, OnDemote): a new run must not overlap it.
+	if e.stopping > 0 {
 		return ErrAlreadyStarted
 	}
 
@@ -661,6 +667,12 @@ func (e *kvElection) Stop() error {
 		return ErrAlreadyStopped
 	}
 	e.stopped = true
+	e.stopping++
+	defer func() {
+		e.mu.Lock()
+		e.stopping--
+		e.mu.Unlock()
+	}()
 
 	wasLeader := e.isLeader.Load()
 
@@ -737,6 +749,12 @@ func (e *kvElection) StopWithContext(ctx context.Context, opts StopOptions) erro
 		return ErrAlreadyStopped
 	}
 	e.stopped = true
+	e.stopping++
+	defer func() {
+		e.mu.Lock()
+		e.stopping--
+		e.mu.Unlock()
+	}()
 
 	wasLeader := e.isLeader.Load()
 
